@@ -113,6 +113,7 @@ def run(ctx):
     from props import C02 as _c02
     _c02.verify_split_gpg(ctx, extract.load("debian.deb822").real())
     _c02.verify_internal_parser(ctx, extract.load("debian.deb822").real())
+    _c08.run_dump_format(ctx)
     for q in ("format_multiline_lines", "parse_multiline_as_lines", "License.from_str", "License.to_str", "_SpaceSeparated.from_str",
               "_SpaceSeparated.to_str", "_LineBased.from_str", "_LineBased.to_str", "Copyright.__init__", "Copyright.dump"):
         node, _ = mod.lookup(q)
